@@ -19,7 +19,7 @@ from vf.zoo import vec
 
 ID = "C19"
 LEVEL = "exploration"
-BUDGET = {"quick": 1600, "thorough": 32000}
+BUDGET = {"quick": 12800, "thorough": 128000}
 RULE = (
     "Hypothesis draws an expression tree (all classes/options, depth <= 2, size 1-5), a history of 4-25 "
     "operations (requests of T, inv, sqrt, eigval, eigvec, factor, lu_and_piv, capacitance_matrix, hash, array, "
